@@ -13,10 +13,6 @@ namespace LexVerif.Proof.BinaryCorrect
 open LexVerif.Spec LexVerif.Model LexVerif.Model.Bellerophon LexVerif.Model.Binary
 open LexVerif.Proof.RoundNE LexVerif.Proof.ExtRound
 
-/-- `m · base^e` as a fraction -/
-def powFrac (base : Nat) (e : Int) (m : Nat) : Nat × Nat :=
-  if e ≥ 0 then (m * base ^ e.toNat, 1) else (m, base ^ (-e).toNat)
-
 /-! ## normalisation -/
 
 theorem clz_norm {M : Nat} (h0 : M ≠ 0) (h64 : M < 2 ^ 64) :
@@ -351,5 +347,43 @@ theorem binary_exact {F p eb} (lay : Layout F p eb) {base : Nat}
         unfold binRoundUp
         rw [hup]
         exact (roundNE_norm lay lg n.mantissa c n.exponent hm1 hm2 hc power2 hpw hp2).symm
+
+/-- without `many_digits` (or with `lossy`) `binary` always decides -/
+theorem binary_valid {F p eb} (lay : Layout F p eb) {base : Nat}
+    (hb : base = 2 ∨ base = 4 ∨ base = 8 ∨ base = 16 ∨ base = 32) (n : Num) (lossy : Bool)
+    (hm : n.mantissa < 2 ^ 64) (he1 : -(2 ^ 27 : Int) ≤ n.exponent) (he2 : n.exponent ≤ (2 ^ 27 : Int))
+    (hdec : n.manyDigits = false ∨ lossy = true) :
+    ∃ fp, binary F base n lossy = .ok fp ∧ 0 ≤ fp.exp := by
+  obtain ⟨lg, hlg⟩ := isPow2Base_of base hb
+  rw [binary_eq]
+  by_cases h0 : n.mantissa = 0
+  · rw [if_pos h0]; exact ⟨_, rfl, Int.le_refl _⟩
+  · rw [if_neg h0]
+    obtain ⟨hc, hm1, hm2, hshl⟩ := clz_norm h0 hm
+    simp only [hshl]
+    generalize hP : calculatePower2 F base n.exponent (clz64 n.mantissa) = power2 at *
+    by_cases hz : -power2 + 1 > 64
+    · rw [if_pos hz]; exact ⟨_, rfl, Int.le_refl _⟩
+    · rw [if_neg hz]
+      have hu : binUndecided (n.mantissa * 2 ^ clz64 n.mantissa) (calculateShift F power2).toNat lossy
+          n.manyDigits = false := by
+        unfold binUndecided
+        rcases hdec with h | h <;> rw [h] <;> simp
+      rw [hu]
+      simp only [Bool.false_eq_true, if_false]
+      exact ⟨_, rfl, (round_bits lay _ power2 _ hm1 hm2 (by omega)).1⟩
+
+/-- the defect the exclusion `MarkerOk` mirrors: radix 2, the 64-bit mantissa `2^63 + 2^10` (even, exactly
+half-way), `many_digits`, exponent 40000: `power2 = 41075`, the "invalid" marker `41075 − 32768 = 8307` is
+not negative, the caller takes the result for valid and assembles the bit pattern `0x8730000000000400`
+(a tiny negative number) where the correct answer is `+∞`. -/
+theorem binary_marker_overflow_witness :
+    binary FTy.f64 2 ⟨2 ^ 63 + 2 ^ 10, 40000, false, true⟩ false = .ok ⟨2 ^ 63 + 2 ^ 10, 8307⟩ ∧
+    extendedToFloat FTy.f64 ⟨2 ^ 63 + 2 ^ 10, 8307⟩ = 0x8730000000000400 ∧
+    roundNE f64 ((2 ^ 63 + 2 ^ 10) * 2 ^ 40000) 1 = 0x7ff0000000000000 ∧
+    ¬ MarkerOk FTy.f64 2 ⟨2 ^ 63 + 2 ^ 10, 40000, false, true⟩ := by
+  refine ⟨by decide +kernel, by decide +kernel, by decide +kernel, ?_⟩
+  unfold MarkerOk
+  decide +kernel
 
 end LexVerif.Proof.BinaryCorrect
